@@ -471,9 +471,9 @@ def work_list(quick, prop):
     if quick:
         for n_in, k in ((0, 1), (0, 2), (1, 0), (1, 1), (2, 0), (2, 1)):
             chunks.append(('enum', n_in, k, 'FULL', 'core+more', 0, 1))
-        for n_in, k in ((1, 2), (2, 2)):
-            chunks.append(('enum', n_in, k, 'REDUCED', 'core', 0, 1))
-        chunks.append(('rand', 0, 450, 4, 8, 'all'))
+        chunks.append(('enum', 1, 2, 'REDUCED', 'core', 0, 1))
+        chunks.append(('enum', 2, 2, 'REDUCED-2v', 'core', 0, 1))
+        chunks.append(('rand', 0, 1200, 4, 8, 'all'))
     else:
         for n_in, k in ((0, 1), (0, 2), (1, 0), (1, 1), (2, 0), (2, 1)):
             chunks.append(('enum', n_in, k, 'FULL', 'all', 0, 1))
@@ -496,12 +496,12 @@ def chunk_items(chunk, prop):
     core, more, tho = PIPELINES_CORE, PIPELINES_MORE, PIPELINES_THOROUGH
     if chunk[0] == 'enum':
         _, n_in, k, alpha, pset, part, parts = chunk
-        alphabet = {'FULL': FULL, 'REDUCED': REDUCED, 'REDUCED3': REDUCED3}[alpha]
-        if n_in == 0:
-            alphabet = [(t, a) for t, a in alphabet]
+        alphabet = {'FULL': FULL, 'REDUCED': REDUCED, 'REDUCED-2v': [(t, min(a, 2)) for t, a in REDUCED], 'REDUCED3': REDUCED3}[alpha]
         pipes = {'core': core, 'core+more': core + more, 'all': core + more + tho}[pset]
         if alpha == 'REDUCED3':
             variants = lambda ins, gs: [[gs[-1]], [gs[-1], gs[0]]]   # noqa: E731
+        elif alpha == 'REDUCED-2v':
+            variants = lambda ins, gs: [[gs[-1]], [ins[0], gs[-1], gs[0], gs[0]]]   # noqa: E731
         else:
             variants = output_variants
         for i, net in enumerate(enum_nets(n_in, k, alphabet, variants)):
@@ -511,7 +511,7 @@ def chunk_items(chunk, prop):
     else:
         _, start, count, max_in, max_g, pset = chunk
         for i in range(start, start + count):
-            r = rng(prop if prop == 'SIMP' else 'SIMP', 'rand', i)
+            r = rng('SIMP', 'rand', i)
             net = random_net(r, max_in, max_g)
             if N.arity(net) or N.rank(net) is None:
                 continue
